@@ -34,6 +34,7 @@ ArchCalls ==
     \cup {[m |-> "containing_modules", names |-> ns, list |-> l] :
              ns \in {<<A>>, <<B>>}, l \in BOOLEAN}
     \cup {[m |-> "containing_modules", names |-> <<A, B>>, list |-> TRUE],
+          [m |-> "containing_modules", names |-> <<B, A>>, list |-> TRUE],      \* a list that is not in ascending order
           [m |-> "containing_modules", names |-> <<>>, list |-> TRUE]}
 
 \* "arch3": three layers and three modules, calls alternating layer(..) / containing_modules(..) - all definitions
